@@ -49,7 +49,9 @@ NewSt == [life |-> [o \in Objs |-> "transient"], coll |-> [p \in Ps |-> <<>>], p
           hp |-> [c \in Cs |-> "unknown"], orph |-> {}, marked |-> {}, mod |-> Objs,
           val |-> [c \in Cs |-> "v0"], cval |-> [c \in Cs |-> NoValue], dbv |-> [c \in Cs |-> "absent"],
           dbp |-> {}, dbc |-> [c \in Cs |-> "absent"], dead |-> FALSE, err |-> "ok",
-          dupseen |-> FALSE]       \* ghost: some list has held the same child twice (C37 finding, DESIGN 6)
+          dupseen |-> FALSE,       \* ghost: some list has held the same child twice (C37 finding, DESIGN 6)
+          stale |-> {}]            \* ghost: children whose FK attribute a flush wrote while they were NOT session members and that have not been
+                                   \* re-synchronised since (the flush warns "not in session ... will not proceed" but still sets c.pid in memory)
 \* a fresh session after commit: every row loaded (both sides), objects without a row are new transient instances
 Reload(dbp, dbc, dbv) ==
    [NewSt EXCEPT !.life = [o \in Objs |-> IF o \in dbp \/ (o \in Cs /\ dbc[o] # "absent") THEN "persistent" ELSE "transient"],
@@ -224,6 +226,7 @@ FlushCore(s) ==
               \cup {<<"DELETE", o, "-", "-">> : o \in udel}
        s2 == [s1 EXCEPT !.pid = pidC, !.mod = (@ \cup touched) \ usave, !.dbp = dbp2, !.dbc = dbc2, !.dbv = dbv2,
                         !.cval = [c \in Cs |-> IF c \in usave THEN s1.val[c] ELSE s1.cval[c]],
+                        !.stale = (@ \cup (touched \ usave)) \ (touched \cap usave),
                         !.life = [o \in Objs |-> IF o \in udel THEN "deleted" ELSE IF o \in usave THEN "persistent" ELSE s1.life[o]],
                         !.marked = @ \ udel,
                         !.ccoll = [p \in Ps |-> IF p \in usave THEN Range(s1.coll[p]) ELSE s1.ccoll[p]],
@@ -309,6 +312,14 @@ RowsEqualGraph == (last.a \in {"Flush", "CommitReload"} /\ Ok) =>
                        /\ st.life[c] = "deleted" => st.dbc[c] = "absent"
                        /\ (InSess(st, c) /\ c \notin st.marked /\ st.parent[c] = None) => st.dbc[c] = None
                        /\ (InSess(st, c) /\ c \notin st.marked /\ st.parent[c] # None /\ InSess(st, st.parent[c])) => st.dbc[c] = st.parent[c]
+\* the same, except for a child whose FK attribute was written by an earlier flush while the child was outside the session (that flush
+\* warned) and has not been re-synchronised: re-adding it flushes the stale attribute even when both relationship sides show no net change
+RowsEqualGraph_ExceptStaleFk == (last.a \in {"Flush", "CommitReload"} /\ Ok) =>
+      /\ \A p \in Ps : (InSess(st, p) => p \in st.dbp) /\ (st.life[p] = "deleted" => p \notin st.dbp)
+      /\ \A c \in Cs : /\ InSess(st, c) => st.dbc[c] # "absent"
+                       /\ st.life[c] = "deleted" => st.dbc[c] = "absent"
+                       /\ (InSess(st, c) /\ c \notin st.marked /\ c \notin st.stale /\ st.parent[c] = None) => st.dbc[c] = None
+                       /\ (InSess(st, c) /\ c \notin st.marked /\ c \notin st.stale /\ st.parent[c] # None /\ InSess(st, st.parent[c])) => st.dbc[c] = st.parent[c]
 \* one flush writes the whole pending state: nothing is left pending or marked for deletion (violated: DESIGN 6, C30)
 FlushIsComplete == (last.a = "Flush" /\ Ok) => (st.marked = {} /\ \A o \in Objs : st.life[o] # "pending")
 \* the same, except for a delete-marked child that the flush found in the added-history of an in-session parent (cancel_delete)
@@ -354,7 +365,7 @@ OrphanDeleted == [][(last'.a = "Flush" /\ ~st'.dead /\ DOrph) =>
 \* ... and one that has been re-associated with a parent in the session is kept
 ReassociatedKept == [][(last'.a = "Flush" /\ ~st'.dead /\ DOrph) =>
        \A c \in Cs : (st.life[c] = "persistent" /\ c \notin st.marked /\ st.parent[c] # None /\ InSess(st, st.parent[c]) /\ st.parent[c] \notin st.marked
-                      /\ c \in Range(st.coll[st.parent[c]])) => st'.dbc[c] = st.parent[c]]_vars
+                      /\ c \in Range(st.coll[st.parent[c]]) /\ c \notin st'.stale) => st'.dbc[c] = st.parent[c]]_vars
 \* after any flush no row remains whose delete-orphan parent row is gone
 NoRowOfGoneParent == [][(last'.a = "Flush" /\ ~st'.dead /\ DOrph) =>
        \A c \in Cs : (st.dbc[c] \in Ps /\ st.dbc[c] \notin st'.dbp) => (st'.dbc[c] = "absent" \/ st'.dbc[c] \in st'.dbp)]_vars
